@@ -166,7 +166,7 @@ class Sock:
 
 def parse(impl, scn):
     T = dict(socks={}, udps={}, binds={}, listens=set(), dns={}, nodes={}, counts=None, proxy=None, crash=None,
-             udp_sent=[], udp_rx=[], nat=False, stopped=False, lossy=False, now=0, udp_recvs={}, udp_closed=set(), assoc=[])
+             udp_sent=[], udp_rx=[], nat=False, stopped=False, lossy=False, now=0, udp_recvs={}, udp_closed=set(), assoc=[], udp_rx_t=[])
     for ln in scn.split("\n"):
         t = ln.split()
         if not t: continue
@@ -256,6 +256,7 @@ def parse(impl, scn):
             elif kind == "urecv":
                 if ec == "ok":
                     T["udp_rx"].append((s, k.get("ep"), n, unhex(k["data"]) if "data" in k else None, k.get("sum")))
+                    T["udp_rx_t"].append(T["now"])
                 del pend[h]
     return T
 
@@ -312,7 +313,20 @@ def _check(impl, scn):
     assign = match_peers(T, ver, clients, others, listeners)
     expect_counts = [0, 0, 0]
     maybe_counts = [0, 0, 0]       # requests of clients that closed on a lossy path: what was still unacknowledged is lost
-    nassoc = 0
+    nassoc = 0; used_rports = set()
+    n_assoc_req = 0            # complete UDP ASSOCIATE requests (by address) the proxy may have processed
+    for c in clients:
+        g0 = negotiate(ver, bytes(c.sent) + bytes(c.unfinished))
+        if g0["status"] == "request" and g0["req"][0] == 3 and g0["req"][1] == "ip": n_assoc_req += 1
+    def arep(rp):
+        if px["flags"] & 2: return bytes([5, 0, 0, 3, 6]) + b"foobar" + bytes([rp >> 8, rp & 255])
+        return reply5(0, pxip, rp)
+    sole_claim = {}            # relay port -> the one client whose received reply names it
+    for c in clients:
+        g0 = negotiate(ver, bytes(c.sent))
+        if g0["status"] == "request" and g0["req"][0] == 3 and g0["req"][1] == "ip":
+            ok_ports = [px["bind_start"] + k for k in range(n_assoc_req) if verify_chunks(c.rx, bytes(g0["prefix"]) + arep(px["bind_start"] + k))[0]]
+            if len(ok_ports) == 1: sole_claim.setdefault(ok_ports[0], c.name)
     for c in sorted(clients, key=lambda s: (s.connect_t, s.name)):
         S = bytes(c.sent)
         g = negotiate(ver, S)
@@ -388,9 +402,14 @@ def _check(impl, scn):
                         else:
                             E = None      # the second reply names an endpoint the trace does not show
             elif cmd == 3:
-                rport = px["bind_start"] + nassoc; nassoc += 1
-                if px["flags"] & 2: E += bytes([5, 0, 0, 3, 6]) + b"foobar" + bytes([rport >> 8, rport & 255])
-                else: E += reply5(0, pxip, rport)
+                # relay ports are handed out from bind_start upwards in the order the proxy PROCESSES the
+                # requests (not visible in the trace when several associations are negotiated at once): any
+                # port of that range not named in another association's reply
+                free = [px["bind_start"] + k for k in range(n_assoc_req)
+                        if px["bind_start"] + k not in used_rports and sole_claim.get(px["bind_start"] + k, c.name) == c.name]
+                rport = ([rp for rp in free if verify_chunks(c.rx, bytes(E) + arep(rp))[0]] or free or [px["bind_start"] + nassoc])[0]
+                nassoc += 1; used_rports.add(rport)
+                E += arep(rport)
                 complete_replies = len(E)
                 if px["flags"] & 1: must_close = True
                 T["assoc"].append(dict(client=c, relay="%s:%d" % (pxip, rport), ep=(addr, port), reply_len=complete_replies, kind=kind))
@@ -495,9 +514,21 @@ def udp_complete(T, px):
         relay = a["relay"]
         aip, aport = a["ep"]
         # the client's UDP socket: bound to the endpoint the request named (0.0.0.0 = the TCP client's address)
-        cu = [u for u, ep in T["udps"].items() if ep.rsplit(":", 1)[1] == str(aport) and (aip == "0.0.0.0" or ep.rsplit(":", 1)[0] == aip)]
+        t_learn = None
+        if aport != 0:
+            cu = [u for u, ep in T["udps"].items() if ep.rsplit(":", 1)[1] == str(aport) and (aip == "0.0.0.0" or ep.rsplit(":", 1)[0] == aip)]
+        else:
+            # port 0: the relay takes the source port of the first datagram that arrives from the named address
+            # (0.0.0.0 = the address of the TCP connection) as the client's. Decidable from the trace when only
+            # one socket of that address ever sends to this relay; replies can only be returned once the port
+            # is known, i.e. (visibly) once the relay has forwarded something
+            cip = aip if aip != "0.0.0.0" else (T["nodes"].get(c.node or "", [None])[0])
+            cu = sorted(set(u for (u, ep, d, ts) in T["udp_sent"] if ep == relay and u in T["udps"] and T["udps"][u].rsplit(":", 1)[0] == cip))
+            fw = [tt for (x, tt) in zip(T["udp_rx"], T["udp_rx_t"]) if x[1] == relay]
+            t_learn = min(fw) if fw else float("inf")
         if len(cu) != 1 or cu[0] in T["udp_closed"]: continue
         cu = cu[0]
+        _n("udp association eligible for delivery (request port %s)" % ("0" if aport == 0 else "given"))
         expected = {}       # target socket -> number of datagrams it must get
         for (u, ep, d, ts) in T["udp_sent"]:
             if u != cu or ep != relay or d is None or ts <= t_reply: continue
@@ -520,7 +551,8 @@ def udp_complete(T, px):
             if got < cnt and pending > 0:
                 fails.append(("udp", "%s received %d of the %d well-formed datagrams the client sent it through the relay %s, and is still waiting" % (tu, got, cnt, relay)))
         # replies
-        back = sum(1 for (u, ep, d, ts) in T["udp_sent"] if u != cu and ep == relay and ts > t_reply and d is not None and len(d) > 0 and u not in T["udp_closed"])
+        back = sum(1 for (u, ep, d, ts) in T["udp_sent"] if u != cu and ep == relay and ts > t_reply and d is not None and len(d) > 0 and u not in T["udp_closed"]
+                   and (t_learn is None or ts > t_learn))
         gotb = sum(1 for (u, src, n, d, sm) in T["udp_rx"] if u == cu and src == relay)
         allb = sum(1 for (u, src, n, d, sm) in T["udp_rx"] if u == cu)
         if back: _n("eval udp delivery target->client (datagrams)", back)
